@@ -43,7 +43,7 @@ theorem opFin_inv {s : State} (i : Inv s) (idx : Nat) (ads : List Nat) (r t : Na
           simpa [o] using hc
       have c2 : Core none s2 := by
         refine core_update i.core h o hnl (by simp) ?_ d.hosts d.more d.indexes d.rindexes d.relays d.rs
-          (no_relay_idx_of_pidx i.core hp) ?_ ?_ ?_
+          (no_relay_idx_of_pidx i.core hp) ?_ ?_ ?_ (fun a ha => absurd ha (hvp a)) ?_
         · intro y; rw [d.objs]; simp [s1, State.setObj, get_set]
         · intro a x hx
           by_cases e : x = h
@@ -69,6 +69,11 @@ theorem opFin_inv {s : State} (i : Inv s) (idx : Nat) (ads : List Nat) (r t : Na
           rw [d.next] at hx
           have hx' : s.next ≤ x := hx
           exact ⟨hx', by omega⟩
+        · intro j x hxh hj
+          rw [d.pidx, if_neg]; exact hj
+          rintro ⟨_, h2⟩
+          have h2' : s.pidx.get j = some h := h2
+          rw [hj] at h2'; exact hxh (Option.some.inj h2')
       have ho2 : s2.obj h = o := by
         simp [State.obj, d.objs, s1, State.setObj, get_set]
       have cap2 : Cap s2 := fun a => by
@@ -119,7 +124,7 @@ theorem opResp_inv {s : State} (i : Inv s) (ads : List Nat) (r p t : Nat) (st : 
     let s1 : State := { s with objs := s.objs.set s.next o, next := s.next + 1 }
     have c1 : Core none s1 := by
       refine core_update i.core s.next o u3 (by simp) (fun y => by simp [s1, get_set]) rfl rfl rfl rfl rfl rfl
-        (no_relay_idx_of_fresh i.core (Nat.le_refl _)) ?_ ?_ ?_
+        (no_relay_idx_of_fresh i.core (Nat.le_refl _)) ?_ ?_ ?_ (by intro _ _ hr; simp [o] at hr) (fun _ _ _ e => e)
       · intro a x hx
         have hx' : s.vpnIps.get a = some x := hx
         have : x ≠ s.next := fun e => u1 a (e ▸ hx')
@@ -150,7 +155,7 @@ theorem inv_setRs {s : State} (i : Inv s) (h : Nat) (r : RelayState) (hok : ROk 
     by_cases e : x = h
     · subst e; rw [rsh]; exact hk j
     · rw [rst x e]
-  refine ⟨⟨c.rep, c.listOk, c.nodup, c.idx, c.reach, c.ridx, ?_, ?_, ?_, ?_, c.pidx, c.vpn, c.fresh⟩, i.cap⟩
+  refine ⟨⟨c.rep, c.listOk, c.nodup, c.idx, c.reach, c.ridx, ?_, ?_, ?_, ?_, c.pidx, c.vpn, c.fresh, c.vpnReady⟩, i.cap⟩
   · intro j x hx
     obtain ⟨p1, p2, p3⟩ := c.rel j x hx
     exact ⟨p1, by rw [keys]; exact p2, p3⟩
@@ -193,7 +198,7 @@ theorem relay_update {s : State} (i : Inv s) {h idx : Nat} (hl : Live s h) (hz :
     intro j; rw [rsh]; simp only [insertRelay, get_set]
     by_cases e : idx = j <;> simp [e]
   show Inv t
-  refine ⟨⟨c.rep, c.listOk, c.nodup, c.idx, c.reach, c.ridx, ?_, ?_, ?_, ?_, c.pidx, c.vpn, c.fresh⟩, i.cap⟩
+  refine ⟨⟨c.rep, c.listOk, c.nodup, c.idx, c.reach, c.ridx, ?_, ?_, ?_, ?_, c.pidx, c.vpn, c.fresh, c.vpnReady⟩, i.cap⟩
   · intro j x hx
     have hx' : (s.relays.set idx h).get j = some x := hx
     rw [get_set] at hx'
